@@ -216,4 +216,30 @@ def fm_wiring_rule(ctx, R3, getters):
         ctx.require(R3, gf == {opt}, "%s:%s" % (gb.file, gb.line), "Config::%s reads global.%s only (%s)" % (getter, opt, sorted(gf)), ["config::" + getter, "option"])
         if dflt:
             items = {c.get("item") for c in sl.consts if c.get("item")}
-            ctx.require(R3, dflt in items, "%s:%s" % (gb.file, gb.line), "Config::%s falls back to %s (%s)" % (getter, dflt.rsplit("::", 1)[1], sorted(x for x in items if x)), ["config::" + getter, "default"])
+            ctx.require(R3, dflt in items and not {x for x in items if x and x.startswith("acmed::DEFAULT_") and x != dflt}, "%s:%s" % (gb.file, gb.line),
+                        "Config::%s falls back to %s and to no other default (%s)" % (getter, dflt.rsplit("::", 1)[1], sorted(x for x in items if x)), ["config::" + getter, "default"])
+        # the getter EVALUATED for the three states of the configuration: no [global] table, a [global] table without the option, the option set
+        from ..absint import NONE as _N, Val as _V, marker as _m, run as _run, some as _some, struct_val as _sv
+        dv = prog.const(dflt) if dflt else None
+        dval = (dv.get("int", dv.get("str")) if dv else None)
+        for state in ("no-global", "unset", "set"):
+            g = _N if state == "no-global" else _some(_sv(prog, "acmed::config::GlobalOptions", {opt: _some(_m("OPTVAL")) if state == "set" else _N}))
+            try:
+                r = _run(gb, {1: _V("ref", _sv(prog, "acmed::config::Config", {"global": g}))}, None, max_steps=20000)
+            except Exception:
+                r = None
+            rv = r.ret.deref() if r is not None and r.kind == "return" and r.ret is not None else None
+            if rv is None:
+                continue                                    # not evaluable: the structural rules above decide
+            got = repr(rv)
+            if state == "set":
+                good = "OPTVAL" in got
+                want = "the configured value"
+            elif dflt:
+                good = (rv.k in ("int", "str") and rv.v == dval) or (dflt.rsplit("::", 1)[1] in got)
+                want = "%s = %r" % (dflt.rsplit("::", 1)[1], dval)
+            else:
+                good = (rv.k == "variant" and rv.v == "None") or "None" in got
+                want = "None"
+            ctx.require(R3, good, "%s:%s" % (gb.file, gb.line), "Config::%s, %s: %s (expected %s)" % (getter, {"no-global": "no [global] table", "unset": "[global] without %s" % opt, "set": "%s set" % opt}[state], got[:60], want),
+                        ["config::" + getter, "evaluated", state])
